@@ -65,7 +65,7 @@ def shards(tier, seed):
 
 def universe(seed, uid):
     rng = core.rng_for(seed, PROP, 'uni%d' % uid)
-    o = gen.Opts(sub_names=True, max_types=3, nested_arrays=0.0, styles=('wrapped', 'wrapped', 'bare'), multi_return=False, methods=(2, 3), services=(1, 1),
+    o = gen.Opts(sub_names=True, bare_prims=True, max_types=3, nested_arrays=0.0, styles=('wrapped', 'wrapped', 'bare'), multi_return=False, methods=(2, 3), services=(1, 1),
                  attrs=True, defaults=True)
     ir = gen.rand_universe(rng, o, uid=uid)
     for sd in ir['services']:
@@ -305,6 +305,8 @@ class Target(object):
         if k == 'httprpc':
             if any(uses_xml_only(t) for _, t in md['args']):
                 return None
+            if md['style'] == 'bare' and 'ref' not in md['args'][0][1]:
+                return None      # HttpRpc says of itself that it does not read bare arguments that are not objects (NotImplementedError)
             pairs = refflat.request_pairs(ir, md, args, '.')
             return ('/' + md['name'], pairs), pairs
         if any(uses_xml_only_deep(ir, t) for _, t in md['args']):
